@@ -11,15 +11,15 @@ pub mod c12;
 pub mod c13;
 pub mod c14;
 
-#[cfg(feature = "full")]
+#[cfg(feature = "f-decstack")]
 pub mod c01;
-#[cfg(feature = "full")]
+#[cfg(feature = "f-decstack")]
 pub mod c04;
-#[cfg(feature = "full")]
+#[cfg(feature = "f-decstack")]
 pub mod c05;
-#[cfg(feature = "full")]
+#[cfg(feature = "f-decstack")]
 pub mod c07;
-#[cfg(feature = "full")]
+#[cfg(feature = "f-decstack")]
 pub mod c09;
 #[cfg(feature = "full")]
 pub mod c19;
